@@ -1,4 +1,5 @@
 import EV.Proofs.System
+import EV.Props.C07carrier
 
 /-!
 # C10 — histories served from the cache are never stale once quiescent
